@@ -686,7 +686,7 @@ fn systematic(thorough: bool) -> Vec<Case> {
                 }
             }
             if t.family == Family::Palette {
-                text_number_cases(&gold.bytes, &|m| Case { target: ti as u8, src: Src::Golden(gi as u16), inner: vec![], muts: vec![m] }, &mut out);
+                text_number_cases(&gold.bytes, true, &|m| Case { target: ti as u8, src: Src::Golden(gi as u16), inner: vec![], muts: vec![m] }, &mut out);
             }
             if t.group == G_ICY {
                 // the same inside every record of the container
@@ -713,7 +713,7 @@ fn systematic(thorough: bool) -> Vec<Case> {
                     }
                     // the ICE palette text inside the container
                     if ch.key == "PALETTE" {
-                        text_number_cases(&ch.data, &|m| Case { target: ti as u8, src: Src::Golden(gi as u16), inner: vec![Inner::Payload { chunk: sel, m }], muts: vec![] }, &mut out);
+                        text_number_cases(&ch.data, thorough, &|m| Case { target: ti as u8, src: Src::Golden(gi as u16), inner: vec![Inner::Payload { chunk: sel, m }], muts: vec![] }, &mut out);
                     }
                     // every record under every other keyword (in place, and as an additional record behind the original)
                     for name in 0..CHUNK_NAMES.len() as u8 {
@@ -941,13 +941,14 @@ fn sel_of(i: usize, n: usize) -> u16 {
 
 /// Grammar-aware edits of a text (palette formats): every number (decimal run, hex run) replaced by every magnitude of NUMBERS
 /// (all numbers of short texts; the first 16 and last 4 of long ones), and every header line + magnitude inserted as first,
-/// second, third and last line. `wrap` turns the text mutation into a case.
-fn text_number_cases(text: &[u8], wrap: &dyn Fn(Mut) -> Case, out: &mut Vec<Case>) {
+/// second, third and last line (`full`; otherwise a reduced set). `wrap` turns the text mutation into a case.
+fn text_number_cases(text: &[u8], full: bool, wrap: &dyn Fn(Mut) -> Case, out: &mut Vec<Case>) {
     for hex in [false, true] {
         let runs = number_runs(text, hex);
         let n = runs.len();
         for i in 0..n {
-            if n > 24 && i >= 16 && i + 4 < n {
+            let (head, tail) = if full { (16, 4) } else { (8, 2) };
+            if n > head + tail && i >= head && i + tail < n {
                 continue;
             }
             for val in 0..NUMBERS.len() as u8 {
@@ -956,12 +957,16 @@ fn text_number_cases(text: &[u8], wrap: &dyn Fn(Mut) -> Case, out: &mut Vec<Case
         }
     }
     let lines = line_starts(text).len();
-    let mut ats: Vec<u16> = (0..lines.min(3)).map(|i| sel_of(i, lines)).collect();
+    let mut ats: Vec<u16> = (0..lines.min(if full { 3 } else { 1 })).map(|i| sel_of(i, lines)).collect();
     ats.push(u16::MAX);
     ats.dedup();
     for at in ats {
         for kind in 0..HEADER_LINES.len() as u8 {
             for val in 0..NUMBERS.len() as u8 {
+                // inside containers (a PNG is built per case): 2^16, 2^31, 2^32, 2^63, 2^64-1 and the 30-digit number
+                if !full && ![5, 7, 8, 9, 10, 12].contains(&val) {
+                    continue;
+                }
                 out.push(wrap(Mut::HeaderLine { at, kind, val }));
             }
         }
